@@ -210,6 +210,10 @@ func (s *ServiceStmt) Format(prefix ...string) string {
 	serviceNode := transferTokenNode(s.Service, withTokenNodePrefix(prefix...))
 	w.Write(withNode(serviceNode, s.Name, s.LBrace), expectSameLine())
 	if len(s.Routes) == 0 {
+		// a comment behind '{' or in front of '}' needs its own line: "{ //c }" would swallow the brace
+		if s.LBrace.HasLeadingCommentGroup() || s.RBrace.HasHeadCommentGroup() {
+			w.NewLine()
+		}
 		w.Write(withNode(transferTokenNode(s.RBrace, withTokenNodePrefix(prefix...))))
 		return w.String()
 	}
